@@ -191,6 +191,7 @@ def c04(res):
     for f in ("laneu4_q", "unispace"):
         replay_step(res, f, kinds=HEADS, modes="base")
     replay_step(res, "lane_q", kinds=HEADS, modes="giant")
+    call_traces(res)
 
 
 def c05(res):
@@ -956,10 +957,11 @@ def runtime_inductive(res):
 
 CALL_PARTS = {
     "C01": ('{}', "{0, 1, 2, 3}"),
-    "C03": ('{"n"}', "{0, 1, 2, 3}"),
-    "C06": ('{"st", "fields"}', "{0}"),
-    "C07": ('{"st", "fields"}', "{1}"),
-    "C08": ('{"st", "headers"}', "{0, 1, 2}"),
+    "C03": ('{"n", "twin"}', "{0, 1, 2, 3}"),
+    "C04": ('{"twin", "st"}', "{0, 1, 2}"),
+    "C06": ('{"st", "fields", "twin"}', "{0}"),
+    "C07": ('{"st", "fields", "twin"}', "{1}"),
+    "C08": ('{"st", "headers", "twin"}', "{0, 1, 2}"),
     "C09": ('{"st", "n", "digits"}', "{3}"),
     "C10": ('{"err"}', "{0, 1, 2}"),
     "C14": ('{"st", "headers"}', "{0, 1}"),
@@ -981,6 +983,10 @@ def call_traces(res):
         res.violation("the code under test crashed on a long input (rc=%d)" % r.returncode, {"kind": "call-crash", "key": "call-crash", "stderr": r.stderr[-400:]})
         return
     info = json.loads(r.stdout.strip().splitlines()[-1])
+    res.extra["twins_over_4GiB"] = {"checked": info.get("twins_checked", 0), "skipped_no_memfd": info.get("twins_skipped", 0)}
+    if "twin" in parts:
+        # the lemma that licenses the comparison of the > 4 GiB input with its small twin
+        mc_step(res, "pumping-lemma", "Pump", families.SKEL_CFG.replace("INVARIANT Emit EmitLabels HonestPartial DeferredClosed Labelled", "INVARIANT PumpLemma PumpNonVacuous"), workers=4)
     files = [out + ".%d" % i for i in range(NCPU)]
     cfg = "SPECIFICATION TSpec\nCONSTANTS\n  Parts = %s\n  JKinds = %s\nPOSTCONDITION Accepted\nCHECK_DEADLOCK FALSE\n" % (parts, kinds)
     results = validate_traces(res, "call", "TraceCall", cfg, files)
@@ -1001,6 +1007,10 @@ def call_traces(res):
         beg = json.loads(lines[k]) if k >= 0 else {}
         msg = ("long input (%d bytes, kind %s, option bits %s, capacity %s): the recorded result st=%s n=%s err=%s (%d headers) is not the automaton's (judged parts %s)"
                % (nb, beg.get("kind"), beg.get("cfg"), beg.get("cap"), ev.get("st"), ev.get("n"), ev.get("err"), len(ev.get("h", [])), parts))
+        if ev.get("twin") == 0 and "twin" in parts:
+            msg = ("the same input with its long field pumped to 2^32+5 bytes (aliased mapping; kind %s, option bits %s) does not give the result of the %d-byte twin "
+                   "shifted by the extra length, as the pumping lemma of the automaton (spec/Pump.tla) requires: a length, offset or count is not carried in 64 bits"
+                   % (beg.get("kind"), beg.get("cfg"), nb))
         res.violation(msg, {"kind": "call", "begin": beg, "end": ev, "bytes": nb, "key": "call:%s:%s:%s:%d" % (beg.get("kind"), beg.get("cfg"), beg.get("cap"), nb)})
     shutil.rmtree(wd, ignore_errors=True)
 
